@@ -491,6 +491,9 @@ class HeapExec(NumExec):
             vals.append(val)
             if i + 1 < len(e.values):
                 t = s.truth(val, e, p)
+                ts = z3.simplify(t)
+                if (isinstance(e.op, ast.Or) and z3.is_true(ts)) or (isinstance(e.op, ast.And) and z3.is_false(ts)):
+                    break          # Python short-circuit: the remaining operands are not evaluated
                 p.pc.append(t if isinstance(e.op, ast.And) else z3.Not(t))
                 if isinstance(e.op, ast.And):
                     s.refine(p, v, True)
